@@ -272,6 +272,16 @@ CLAIMED = {
              "model's write_regions from the layout trace over a 0xa5-filled file.",
         technique="Coq proof (permutation / completion-order invariance of the four mechanisms) + byte-for-byte differential runs of the real binary",
         design_ref="DESIGN.md §3 C06"),
+    "C20": dict(
+        text="S1: one input path over time: a file system that stamps every modification with a forward-moving clock; wild records the modification time at open (before the mmap), reads "
+             "through the mapping at any time, and compares at the end (also when linking failed). Theorems: any rewrite, append, touch or replacement by a freshly written file after the open "
+             "makes the verdict `changed`, whatever else happens before, between and after; an untouched input is accepted; recording the time after the mmap is refuted (the seeded change), "
+             "and so is a replacement that carries the old modification time over (known finding).",
+        note="Partial: the model follows one path; that every input kind goes through FileData::open and loaded_files is exercised, not proved. Tie: object, archive, thin archive and member, -T "
+             "script, implicit INPUT() script and the object it names, shared library x rewrite/append/touch/replace x every phase boundary (pause hook), failing-link variants, untouched "
+             "controls, and the open->mmap window reached by strace delay injection; wild's accept/reject is compared with the model's verdict for the same trace.",
+        technique="Coq proof (clock/mtime monotonicity over arbitrary traces) + fault-timed runs of the real binary (pause hook, strace injection)",
+        design_ref="DESIGN.md §3 C20"),
     "C10": dict(
         text="S1: Gallina model of what wild writes for unwinding (an FDE is kept iff the section its pc-begin points into was loaded and is not empty; one search-table entry per kept FDE with "
              "hdr-relative signed start and FDE pointer; the table sorted by the signed start) and of the consumer (the last entry with start <= pc, then the range check — what libgcc's binary "
